@@ -45,8 +45,11 @@ def base_cid(fmt, properties, fields, checks, comments):
         rows.append(["D", name, value])
     if comments:
         rows.append(["", "", "fields follow"])
+    comma = ["Decimal separator", ","] in [list(p) for p in properties]
     for index, name in enumerate(fields):
         rows.append(field_row(name, fmt))
+        if comma and name == "amount":
+            rows[-1][2] = rows[-1][2].replace(".", ",")  # the example is written with the declared decimal separator
         if comments and index == 0:
             rows.append([])
     if comments and checks:
@@ -64,7 +67,7 @@ def base_cids(count):
     index = 0
     for fields in itertools.cycle(field_sets):
         for fmt in ("delimited", "fixed", "excel", "ods"):
-            properties = PROPERTIES[fmt][: (index % (len(PROPERTIES[fmt]) + 1))]
+            properties = PROPERTIES[fmt][: ((index // 4) % (len(PROPERTIES[fmt]) + 1))]  # index // 4: independent of the format cycle
             checks = [c for c, (_, needs) in CHECKS.items() if all(n in fields for n in needs)][: index % 4]
             comments = index % 2 == 1
             result.append({"fmt": fmt, "rows": base_cid(fmt, properties, fields, checks, comments), "fields": list(fields), "checks": checks})
@@ -102,8 +105,18 @@ def rewrites(rows):
             for target, source in zip(property_rows, permutation):
                 rewritten[target] = rows[source]
             yield "properties-permuted", rewritten
-    if property_rows:
-        # property rows moved behind the field rows
+        # every pair of property rows exchanged, and the whole block reversed: a property is judged against the final settings only
+        for a, b in itertools.combinations(property_rows, 2):
+            rewritten = list(rows)
+            rewritten[a], rewritten[b] = rows[b], rows[a]
+            yield "properties-swapped", rewritten
+        rewritten = list(rows)
+        for target, source in zip(property_rows, reversed(property_rows)):
+            rewritten[target] = rows[source]
+        yield "properties-reversed", rewritten
+    separators_matter = any(k == "d" and "separator" in row[1].lower() for row, k in zip(rows, kind)) and any(k == "f" and len(row) > 5 and row[5] == "Decimal" for row, k in zip(rows, kind))
+    if property_rows and not separators_matter:
+        # property rows moved behind the field rows (not when an example depends on a separator declared by them)
         moved = [row for i, row in enumerate(rows) if i not in property_rows]
         last_field = max(i for i, k in enumerate(kinds(moved)) if k == "f")
         yield "properties-after-fields", moved[: last_field + 1] + [rows[i] for i in property_rows] + moved[last_field + 1:]
